@@ -520,7 +520,7 @@ def run(ctx: vf.Ctx):
     cases += make_cases(ctx, ctx.n(700, 12000))
     import rtsim  # noqa: F401  import bqskit once, before forking (no threads exist yet)
     t0 = time.time()
-    budget = ctx.n(80, 1500)
+    budget = float(os.environ.get("C07_BUDGET", 0)) or ctx.n(80, 1500)
     bad = False
     done = 0
     with mp.get_context('fork').Pool(min(12, os.cpu_count() or 4)) as pool:
